@@ -318,8 +318,8 @@ def exec_zero_rtt(p):
 
 
 def gen_lowered(r):
-    """0-RTT where the server answers with SMALLER transport parameters than the remembered ones
-    (forbidden by RFC 9000 7.4.1; `TP.monotone` of AQ.Props.C06 is exactly the absence of this)"""
+    """0-RTT where the server's handshake parameters are SMALLER than the remembered ones: the server
+    accepts the early data (forbidden by RFC 9000 7.4.1: the client must refuse) or rejects it (allowed)"""
     l1 = {"max_data": r.choice([2000, 10000]), "max_stream_data": r.choice([1000, 5000])}
     which = r.choice(["max_data", "max_stream_data", "streams", "all"])
     l2, sc1, sc2 = dict(l1), [4, 4], [4, 4]
@@ -329,18 +329,25 @@ def gen_lowered(r):
         l2["max_stream_data"] = r.choice([0, 5, 50])
     if which in ("streams", "all"):
         sc2 = [1, 1]
-    early = [("send", sid, r.choice([300, 700]), False) for sid in r.sample([0, 4, 2], r.randrange(1, 4))]
+    early = [("send", sid, r.choice([300, 700]), False) for sid in r.sample([0, 4, 2, 8], r.randrange(1, 4))]
     later = [("send", r.choice([0, 4, 2, 8]), r.choice([100, 400]), False) for _ in range(r.randrange(1, 4))]
     return {"lowered": True, "seed": r.randrange(1 << 30), "l1": l1, "l2": l2, "sc1": sc1, "sc2": sc2,
-            "early": early, "later": later, "which": which}
+            "early": early, "later": later, "which": which, "reject": r.random() < 0.4,
+            "lose_early": r.random() < 0.6}
+
+
+CLOSE_ONLY = {"TRANSPORT_CLOSE", "APPLICATION_CLOSE", "PADDING"}
 
 
 def exec_lowered(p):
-    """deterministic given `p`: first connection obtains a ticket under L1; on the second the client writes
-    0-RTT data under the remembered L1; the 0-RTT datagrams are lost by the network; the server (limits L2
-    below L1) completes the handshake.  Wire oracle: after the handshake parameters arrived, a 1-RTT packet
-    must not carry NEW stream data (beyond what was sent in 0-RTT) above the server's per-stream limit,
-    above its connection limit, or on a stream beyond its stream count (unless MAX_* frames raised them)."""
+    """deterministic given `p`: a first connection obtains a ticket under L1; on the second the client writes
+    0-RTT data under the remembered L1; the server (limits L2 below L1) accepts the early data, or rejects it
+    (`reject`: it no longer knows the ticket); the 0-RTT datagrams may be lost.  Oracle = the property, on the
+    wire: in every packet the client builds AFTER it has processed the server's handshake parameters, no
+    STREAM / RESET_STREAM byte lies beyond the latest per-stream limit, the highest offsets sum up within the
+    latest connection limit, no frame is for a stream beyond the latest stream count (latest = handshake
+    parameters and MAX_* frames the server put on the wire); an open connection whose 0-RTT data was accepted
+    never has sent more than the latest connection limit; after a close nothing but CONNECTION_CLOSE."""
     from harness import sim as simmod
     from harness.impl_flow import FlowObserver, PacketLog, fast_certs, set_stream_count_limits
     fast_certs()
@@ -359,10 +366,74 @@ def exec_lowered(p):
     log = PacketLog()
     s = simmod.Sim(seed + 1, client_options={"session_ticket": saved[-1]}, server_options=dict(l2), monitors=[log])
     set_stream_count_limits(s.server.conn, *sc2)
-    s.server.conn._session_ticket_fetcher = lambda label: tickets.pop(label, None)
+    s.server.conn._session_ticket_fetcher = (lambda label: None) if p.get("reject") else (lambda label: tickets.pop(label, None))
     c = s.client.conn
     oc = FlowObserver(c, name="client")
     problems = []
+
+    class Latest:
+        """the latest limits the client has received, in the order of the events on the wire"""
+        def __init__(self):
+            self.active = False       # the server's handshake parameters have been processed
+            self.closed = False
+            self.hi = {}              # highest offsets that count (0-RTT data counts once it is accepted)
+            self.early = {}
+            self.msd, self.md, self.ms = {}, l2["max_data"], {False: sc2[0], True: sc2[1]}
+
+        def on_auth(self, name, epoch, pn, frames):
+            if name != "client":
+                return
+            for f in frames:
+                if f["name"] == "MAX_STREAM_DATA":
+                    self.msd[f["stream_id"]] = max(self.msd.get(f["stream_id"], 0), f["value"])
+                elif f["name"] == "MAX_DATA":
+                    self.md = max(self.md, f["value"])
+                elif f["name"] in ("MAX_STREAMS_BIDI", "MAX_STREAMS_UNI"):
+                    self.ms[f["name"].endswith("UNI")] = max(self.ms[f["name"].endswith("UNI")], f["value"])
+
+        def on_built(self, name, epoch, pn, frames):
+            if name != "client":
+                return
+            names = {f["name"] for f in frames}
+            if self.closed and not names <= CLOSE_ONLY:
+                problems.append(f"packet {pn} built after the connection was closed carries {sorted(names - CLOSE_ONLY)}")
+            if names & {"TRANSPORT_CLOSE", "APPLICATION_CLOSE"}:
+                self.closed = True
+            for f in frames:
+                if f["name"] not in ("STREAM", "RESET_STREAM"):
+                    continue
+                sid = f["stream_id"]
+                end = f["final_size"] if f["name"] == "RESET_STREAM" else f["offset"] + len(f["data"])
+                if not self.active:
+                    self.early[sid] = max(self.early.get(sid, 0), end)
+                    continue
+                self.hi[sid] = max(self.hi.get(sid, 0), end)
+                lim = max(l2["max_stream_data"], self.msd.get(sid, 0))
+                what = "accepted" if c.tls.early_data_accepted else "rejected"
+                head = f"{epoch} packet {pn} built after the server's handshake parameters (0-RTT {what}): "
+                if end > lim:
+                    problems.append(head + f"{f['name']} on stream {sid} up to offset {end} beyond the latest per-stream limit {lim} "
+                                    f"(remembered: {l1['max_stream_data']})")
+                elif sid // 4 >= self.ms[bool(sid & 2)]:
+                    problems.append(head + f"{f['name']} on stream {sid} beyond the latest stream count {self.ms[bool(sid & 2)]} "
+                                    f"(remembered: {sc1})")
+                elif sum(self.hi.values()) > self.md:
+                    problems.append(head + f"sum of highest offsets {sum(self.hi.values())} beyond the latest connection limit {self.md} "
+                                    f"(remembered: {l1['max_data']})")
+
+    lat = Latest()
+    log.listeners.append(lat)
+    inner = c._parse_transport_parameters
+
+    def parse_tp(data, from_session_ticket=False):
+        try:
+            inner(data, from_session_ticket=from_session_ticket)
+        finally:
+            if not from_session_ticket:
+                lat.active = True
+                if c.tls.early_data_accepted:      # what was sent in 0-RTT counts: the server accepted it
+                    lat.hi = dict(lat.early)
+    c._parse_transport_parameters = parse_tp
     try:
         s.api(s.client, "connect", simmod.SERVER_ADDR, now=s.now)
         s.transmit(s.client)                      # the Initial packet
@@ -370,63 +441,47 @@ def exec_lowered(p):
         for a in p["early"]:
             s.api(s.client, "send_stream_data", a[1], bytes(a[2]), a[3])
         s.transmit(s.client)
-        del s.pending[keep:]                      # every 0-RTT datagram is lost
-        s.fair_phase(max_steps=200, done=lambda: c._handshake_complete or c._close_event is not None)
-        n_before = len(log.built.get("client", []))
-        hi0 = {}
-        for ep, pn, fr in log.built.get("client", []):
-            for f in fr:
-                if f["name"] == "STREAM":
-                    hi0[f["stream_id"]] = max(hi0.get(f["stream_id"], 0), f["offset"] + len(f.get("data", b"")))
+        if p.get("lose_early", True):
+            del s.pending[keep:]                  # every 0-RTT datagram is lost
+        s.fair_phase(max_steps=300, done=lambda: c._handshake_complete or c._close_event is not None)
         for a in p["later"]:
             s.api(s.client, "send_stream_data", a[1], bytes(a[2]), a[3])
             s.transmit(s.client)
-        s.fair_phase(max_steps=200, done=lambda: not s.pending)
-        # the limits the server put on the wire: its handshake parameters and MAX_* frames
-        msd, md, ms = {}, l2["max_data"], {False: sc2[0], True: sc2[1]}
-        for ep, pn, fr in log.built.get("server", []):
-            for f in fr:
-                if f["name"] == "MAX_STREAM_DATA":
-                    msd[f["stream_id"]] = max(msd.get(f["stream_id"], 0), f["value"])
-                elif f["name"] == "MAX_DATA":
-                    md = max(md, f["value"])
-                elif f["name"] in ("MAX_STREAMS_BIDI", "MAX_STREAMS_UNI"):
-                    ms[f["name"].endswith("UNI")] = max(ms[f["name"].endswith("UNI")], f["value"])
-        hi = dict(hi0)
-        for ep, pn, fr in log.built.get("client", [])[n_before:]:
-            for f in fr:
-                if f["name"] != "STREAM" or ep != "ONE_RTT":
-                    continue
-                sid, end = f["stream_id"], f["offset"] + len(f.get("data", b""))
-                if end <= hi.get(sid, 0):
-                    continue                      # retransmission of 0-RTT data
-                hi[sid] = end
-                lim = max(l2["max_stream_data"], msd.get(sid, 0))
-                if end > lim:
-                    problems.append(f"1-RTT packet {pn}: NEW data on stream {sid} up to offset {end} beyond the per-stream limit {lim} "
-                                    f"of the server's handshake parameters (remembered for 0-RTT: {l1['max_stream_data']})")
-                elif sum(hi.values()) > md and end > hi0.get(sid, 0):
-                    problems.append(f"1-RTT packet {pn}: NEW data, sum of highest offsets {sum(hi.values())} beyond the connection limit {md} "
-                                    f"of the server's handshake parameters (remembered: {l1['max_data']})")
-                elif sid not in hi0 and sid // 4 >= ms[bool(sid & 2)]:
-                    problems.append(f"1-RTT packet {pn}: stream {sid} opened beyond the stream count {ms[bool(sid & 2)]} of the handshake parameters")
+        s.fair_phase(max_steps=400, done=lambda: not s.pending and (c._close_event is not None or c._loss.bytes_in_flight == 0))
     finally:
         s.close_taps()
+    accepted = bool(c.tls.early_data_accepted)
     ce = c._close_event
-    state = {"closed": None if ce is None else int(ce.error_code), "remote_max_data": c._remote_max_data,
-             "used": c._remote_max_data_used, "remote_max_streams_bidi": c._remote_max_streams_bidi}
-    return [(q, {"oracle": "wire-send-0rtt", "cause": "server-lowered-params"}) for q in problems[:1]], oc, state
+    if accepted and lat.active and ce is None and sum(lat.hi.values()) > lat.md:
+        problems.append(f"0-RTT accepted, the connection stays open although the bytes sent ({sum(lat.hi.values())}) exceed the latest "
+                        f"connection limit {lat.md} of the server's handshake parameters (remembered: {l1['max_data']})")
+    if not accepted and lat.active and ce is None and s.server.conn._close_event is None:
+        # 0-RTT rejected: the server received nothing of it; what the latest limits allow must get through
+        delivered = sum(st.receiver.highest_offset for st in s.server.conn._streams.values())
+        written = {a[1] for a in p["early"] + p["later"] if a[2] > 0}
+        allowed = [sid for sid in written if sid // 4 < lat.ms[bool(sid & 2)]
+                   and min(lat.md, max(l2["max_stream_data"], lat.msd.get(sid, 0))) > 0]
+        if delivered == 0 and allowed:
+            problems.append(f"0-RTT rejected: no stream byte reaches the server although its limits (connection {lat.md}, stream "
+                            f"{l2['max_stream_data']}, count {sc2}) allow data on streams {sorted(allowed)}; the client counts the rejected "
+                            f"0-RTT bytes against the new connection limit (used {c._remote_max_data_used} > limit {c._remote_max_data})")
+    state = {"closed": None if ce is None else int(ce.error_code), "accepted": accepted,
+             "remote_max_data": c._remote_max_data, "used": c._remote_max_data_used}
+    cause = "server-lowered-params" if accepted else "0rtt-rejected"
+    return [(q, {"oracle": "wire-send-0rtt", "cause": cause}) for q in problems[:1]], oc, state
 
 
-def lowered_params_exhibit(ctx, r, n, cases, impl_outs):
-    """finding candidate C06-0rtt-lowered-parameters (see known_findings.jsonl): not a hypothesis-free
-    violation of C06 — the server breaks RFC 9000 7.4.1 — but the real code neither refuses the reduced
-    parameters nor applies them to the streams opened in 0-RTT"""
-    lowered_state = 0
-    directed = [{"lowered": True, "seed": 77, "l1": {"max_data": 10000, "max_stream_data": 5000}, "l2": l2, "sc1": [4, 4],
-                 "sc2": [4, 4], "early": [("send", 0, 3000, False), ("send", 4, 2000, False)],
-                 "later": [("send", 0, 1000, False)], "which": "directed"}
-                for l2 in ({"max_data": 10000, "max_stream_data": 50}, {"max_data": 100, "max_stream_data": 5000})]
+def lowered_params(ctx, r, n, cases, impl_outs):
+    """section 5: the server's handshake parameters are below the remembered ones"""
+    base = {"lowered": True, "seed": 77, "l1": {"max_data": 10000, "max_stream_data": 5000}, "sc1": [4, 4], "sc2": [4, 4],
+            "early": [("send", 0, 3000, False), ("send", 4, 2000, False)], "later": [("send", 0, 1000, False)],
+            "which": "directed", "reject": False, "lose_early": True}
+    directed = [dict(base, l2={"max_data": 10000, "max_stream_data": 50}),
+                dict(base, l2={"max_data": 100, "max_stream_data": 5000}),
+                dict(base, l2={"max_data": 10000, "max_stream_data": 5000}, sc2=[1, 1]),
+                dict(base, l2={"max_data": 10000, "max_stream_data": 50}, reject=True, lose_early=False),
+                dict(base, l2={"max_data": 10000, "max_stream_data": 5000}, sc2=[1, 1], reject=True)]
+    closed = refused = 0
     for i in range(n):
         p = directed[i] if i < len(directed) else gen_lowered(r)
         res = exec_lowered(p)
@@ -438,11 +493,10 @@ def lowered_params_exhibit(ctx, r, n, cases, impl_outs):
             ctx.witness(what, p, sig)
         cases.append(oc.lines)
         impl_outs.append(oc.outs)
-        if state["closed"] is None and state["remote_max_data"] < state["used"]:
-            lowered_state += 1
-        ctx.count(("0rtt-lowered", p["seed"]), True)
+        refused += state["closed"] == 10
+        ctx.count(("0rtt-lowered", repr(p)), state["closed"] == 10 or not state["accepted"])
     ctx.notes["lowered_params_runs"] = n
-    ctx.notes["lowered_params_connection_limit_below_used"] = lowered_state
+    ctx.notes["lowered_params_refused_with_protocol_violation"] = refused
 
 
 def zero_rtt(ctx, r, n, cases, impl_outs):
@@ -480,12 +534,13 @@ def main(tier):
         "stream ids / offsets / limits are non-negative integers (decoded varints)",
         "the packet builder is an input: remaining_flight_space and whether start_frame raises are arbitrary; "
         "remaining_flight_space <= remaining_buffer_space (so start_frame cannot raise after the overhead check of _write_stream_frame)",
-        "limits received in MAX_* frames are monotone by construction (the handlers take the max); transport parameters replacing "
-        "the values remembered for 0-RTT are NOT compared by the code: conn_limit/stream_limit assume the peer does not reduce them "
-        "(RFC 9000 section 7.4.1 obliges the server); see AQ.Props.C06.tp_reduction_counterexample. The assumption cannot be "
-        "derived: section 5 of this check shows the real client lowering its limits (open finding C06-0rtt-lowered-parameters); "
-        "it is not needed without 0-RTT resumption (AQ.Props.C06.invariant_single_handshake) and MAX_* frames never lower a "
-        "limit (remote_limits_monotone)",
+        "limits received in MAX_* frames are monotone by construction (the handlers take the max, remote_limits_monotone); transport "
+        "parameters: the first application (limits still 0) is monotone by itself; the handshake parameters of a server that ACCEPTED "
+        "0-RTT are compared with the remembered ones by the code, which closes with PROTOCOL_VIOLATION when one is smaller "
+        "(AQ.Props.C06.invariant_resumed_accepted: no hypothesis on the peer; section 5 of this check drives such servers against "
+        "the real client); only for a server that REJECTED 0-RTT are the new parameters assigned without comparison and without "
+        "resetting the streams: conn_limit / stream_limit assume they are not below the remembered ones there "
+        "(AQ.Props.C06.tp_rejected_counterexample; the real client violates the property in that case, section 5)",
         "delivery reports name frames emitted earlier for that stream and not yet reported (GWFRun; guaranteed by recovery, C08; "
         "validated on every real trace of this run: notes.delivery_reports_checked)",
     ]
@@ -535,9 +590,9 @@ def main(tier):
     cases, impl_outs = [], []
     zero_rtt(ctx, r, 25 if not thorough else 400, cases, impl_outs)
     fc.diff_cases(ctx, "flow-zero-rtt", cases, impl_outs)
-    # 5. 0-RTT answered with SMALLER transport parameters (the case `TP.monotone` excludes): what the code does
+    # 5. 0-RTT answered with SMALLER transport parameters, early data accepted (the client must refuse) or rejected
     cases, impl_outs = [], []
-    lowered_params_exhibit(ctx, r, 8 if not thorough else 120, cases, impl_outs)
+    lowered_params(ctx, r, 12 if not thorough else 150, cases, impl_outs)
     fc.diff_cases(ctx, "flow-zero-rtt-lowered", cases, impl_outs)
     ctx.cov["rule"] = (
         "real QuicConnection after a real handshake; (1) every sequence of 3 actions from {write on 4 stream kinds, reset, "
@@ -545,7 +600,11 @@ def main(tier):
         "max_streams) in boundary configurations, followed by raising every limit and draining (progress oracle); (2) PRNG "
         "schedules of writes/resets/stops on all stream types as client and as server with peer limits from {0,1,2,3,...}, "
         "monotone and non-monotone MAX_* updates, acks, packet-threshold losses, timers; (3) two real endpoints over the "
-        "adversarial network. Non-trivial = the wire reached a limit exactly AND (a retransmission was emitted OR a blocked "
+        "adversarial network; (4) 0-RTT under remembered limits with handshake parameters >= them; (5) 0-RTT where the server's "
+        "handshake parameters are BELOW the remembered ones (max_data / max_stream_data / stream counts / all), early data "
+        "accepted or rejected, 0-RTT datagrams lost or delivered: oracle = the property on the wire after the parameters "
+        "arrived + nothing but CONNECTION_CLOSE after a close + progress within the new limits after a rejection "
+        "(non-trivial there = refused with PROTOCOL_VIOLATION or early data rejected). Non-trivial = the wire reached a limit exactly AND (a retransmission was emitted OR a blocked "
         "stream was released by MAX_STREAMS); distinct by (config, script) hash."
     )
     ctx.cov["exhaustive"] = True
